@@ -267,6 +267,13 @@ class PageTemplate(BaseTemplate):
     def expression_parser(self) -> ExpressionParser:
         return ExpressionParser(self.expression_types, self.default_expression)
 
+    def _compile(self, body: str, builtins: Collection[str]) -> str:
+        # The expression positions recorded for error messages refer
+        # to the text that is tokenized, see ``parse``.
+        if self.content_type != 'text/xml':
+            body = body.replace('\r\n', '\n').replace('\r', '\n')
+        return super()._compile(body, builtins)
+
     def parse(self, body: str) -> MacroProgram:
         boolean_attributes = self.boolean_attributes
 
